@@ -85,6 +85,9 @@ func (o *bceOracle) compilerProved(p *Prog, pos token.Pos, pkg string) bool {
 	return !o.remaining[filepath.Clean(r)+":"+strconv.Itoa(ps.Line)+":"+strconv.Itoa(ps.Column)]
 }
 
+// bidxFilter, when set, restricts a bidx run to the sites it accepts (keys keep their function-wide ordinals)
+var bidxFilter func(in ssa.Instruction) bool
+
 type bidxStats struct{ sites, compiler, lin, unproved int }
 
 // bidx checks all sites of the functions; exempt maps site keys to reasons (one named construct each).
@@ -124,6 +127,11 @@ func bidx(c *Ctx, rule string, funcs []*ssa.Function, exempt map[string]string) 
 			}
 			if s.Kind == "make" && makeFromConfig(s.Instr.(*ssa.MakeSlice).Len) {
 				st.sites--
+				continue
+			}
+			if bidxFilter != nil && !bidxFilter(s.Instr) {
+				st.sites--
+				c.Evals--
 				continue
 			}
 			if o.compilerProved(c.P, s.Instr.Pos(), pkg) && s.Kind != "make" {
